@@ -213,8 +213,9 @@ def _merged_checker(ctx, F, rid, cs):
         for cbb in cont:
             ctx.check(how[cbb]["needle_is_signal"], rid, "tests-signal-in-FORBIDDEN", "the check tests the function's own signal parameter for membership in FORBIDDEN",
                       m.term(cbb)["sp"], how[cbb])
-        effects = [(bb, t) for bb, t in m.calls() if t.get("f") is not None and
-                   (F.inst[t["f"]].name == "signal_hook_registry::half_lock::WriteGuard::<'_, %s>::store" % DATA_T or t["f"] in ins)]
+        from .pub import publish_sites
+        pubs = {bb for bb, t, gi, vi in publish_sites(F, m, DATA_T)}
+        effects = [(bb, t) for bb, t in m.calls() if t.get("f") is not None and (bb in pubs or t["f"] in ins)]
         if not effects:
             raise AnchorLost("effects (publish / install) in the registering function")
         # flag-off edges: switch on a bool parameter whose other edge leads to the membership test
@@ -288,7 +289,8 @@ def rule_d(ctx):
     ins = [i.id for i in installers(F)]
     for r in _register_impls(F):
         ctx.fn(r)
-        stores = [bb for bb, t in r.calls() if t.get("f") is not None and F.inst[t["f"]].name == "signal_hook_registry::half_lock::WriteGuard::<'_, %s>::store" % DATA_T]
+        from .pub import publish_sites
+        stores = [bb for bb, t, gi, vi in publish_sites(F, r, DATA_T)]
         fall = [bb for bb, t in r.calls() if t.get("f") is not None and (F.inst[t["f"]].defp.endswith("Prev::detect") or t["f"] in ins)]
         if not stores or len(fall) < 2:
             raise AnchorLost("registration: fallible calls %d / publish %d" % (len(fall), len(stores)))
